@@ -2,7 +2,7 @@
 # verify_seeded.sh <Cxx> : independently re-verify the seeded mutations produced in /tmp/mut/<Cxx>/out/m*
 # For each: (1) demo passes on the clean tree; (2) demo fails with patch; (3) full test suite passes with patch alone.
 id=$1
-wt=/tmp/mut/$id
+wt=${MUTROOT:-/tmp/mut}/$id
 cd $wt || exit 2
 export CARGO_TARGET_DIR=$wt/target CARGO_NET_OFFLINE=true
 res=$wt/out/verify.txt; : > $res
